@@ -117,6 +117,18 @@ type FTy struct {
 	TS      *TSRules  // TimestampField.rules
 	ObjR    *ObjRules // ObjectField.rules
 	OneofR  bool      // OneofField.rules present (an empty message; only the source AST can say it)
+	Ref     string    // reference target of an object / oneof field: "" = Bar / Choice, or "Baz" / "Pick"
+}
+
+// refName: the schema an object / oneof field refers to
+func (t FTy) refName() string {
+	if t.Ref != "" {
+		return t.Ref
+	}
+	if t.Kind == TOneof {
+		return "Choice"
+	}
+	return "Bar"
 }
 
 type PKind int
@@ -603,7 +615,7 @@ func (t FTy) j5s(enum EnumEnv, prefix string) (tag string, lines []string) {
 			add("types = %s", qList(t.AnyT))
 		}
 	case TObject:
-		tag = "object:Bar"
+		tag = "object:" + t.refName()
 		if t.Flatten {
 			add("flatten = true")
 		}
@@ -616,7 +628,7 @@ func (t FTy) j5s(enum EnumEnv, prefix string) (tag string, lines []string) {
 			}
 		}
 	case TOneof:
-		tag = "oneof:Choice"
+		tag = "oneof:" + t.refName()
 	}
 	lines = append(lines, t.List.lines(prefix)...)
 	return tag, lines
@@ -693,7 +705,7 @@ func FileRoot(kind string, enum EnumEnv, objName, objDesc string, props []Prop) 
 	var sb strings.Builder
 	sb.WriteString("package foo.v1\n\n")
 	sb.WriteString(enum.J5S())
-	sb.WriteString("\nobject Bar {\n\tfield x string\n}\n\noneof Choice {\n\toption a string\n\toption b integer:INT32\n}\n\n")
+	sb.WriteString("\nobject Bar {\n\tfield x string\n}\n\nobject Baz {\n\tfield y integer:INT32\n}\n\noneof Choice {\n\toption a string\n\toption b integer:INT32\n}\n\noneof Pick {\n\toption c string\n}\n\n")
 	fmt.Fprintf(&sb, "%s %s {\n", kind, objName)
 	if objDesc != "" {
 		fmt.Fprintf(&sb, "\t| %s\n\n", objDesc)
